@@ -60,13 +60,12 @@ import numpy as np
 
 def make_slice_cache(cycle_vect):
     """Create a list of slice objects from a cycle_vect."""
-    starts = np.where(np.diff(cycle_vect, axis=0) == 1)[0] + 1
-    stops = starts
-
-    starts = np.r_[0, starts]
-    stops = np.r_[stops, len(cycle_vect)]
-
-    slice_cache = [slice(starts[ii], stops[ii]) for ii in range(len(starts))]
+    # Each slice spans exactly the samples labelled with that cycle, samples
+    # which are not part of any cycle (-1) are not included.
+    slice_cache = []
+    for ii in range(np.max(cycle_vect) + 1):
+        inds = np.where(cycle_vect == ii)[0]
+        slice_cache.append(slice(inds[0], inds[-1] + 1))
 
     return slice_cache
 
